@@ -257,6 +257,11 @@ func (x *Exec) symValue(st *State, name string, t types.Type, entry bool) Val {
 	case *types.Interface:
 		r := x.fresh(st, name, SInt)
 		st.assume(Ge(r, IntT(0)))
+		if entry && st.WM0.S != "" {
+			// what an interface value of the entry state holds exists at entry
+			x.declIfaceFns()
+			st.assume(And(Ge(app("payl", SInt, r), IntT(0)), Le(app("payl", SInt, r), st.WM0)))
+		}
 		return Val{K: VIface, T: r, GoT: t}
 	case *types.Signature:
 		r := x.fresh(st, name, SInt)
@@ -1484,9 +1489,50 @@ func (x *Exec) typeTag(t types.Type) Term {
 	name := "tag!" + typeName(t)
 	c := x.Reg.DeclareConst(name, SInt)
 	x.Reg.Axiom("tagpos:"+name, Gt(c, IntT(0)).S)
+	if _, ok := tagTypes[name]; !ok {
+		tagTypes[name] = t
+		for pn, it := range implPreds {
+			x.implAxiom(pn, it, name, t)
+		}
+	}
+	// reflect-based nil test (nodeenrollment.IsNil): kinds whose nil value is a nil payload
+	x.ufun("nilPayloadKind", []string{SInt}, SBool)
+	switch t.Underlying().(type) {
+	case *types.Pointer, *types.Map, *types.Slice, *types.Chan, *types.Signature, *types.Interface:
+		x.Reg.Axiom("nilkind:"+name, app("nilPayloadKind", SBool, c).S)
+	default:
+		x.Reg.Axiom("nilkind:"+name, Not(app("nilPayloadKind", SBool, c)).S)
+	}
 	defer x.declareTagDistinct2(t)
 	// distinctness: tags are numbered lazily
 	return c
+}
+
+// Which tagged concrete types implement which interfaces is decided by go/types
+// and stated as axioms (for every pair of a declared type tag and a declared
+// implements-predicate).
+var tagTypes = map[string]types.Type{}
+var implPreds = map[string]*types.Interface{}
+
+func (x *Exec) implAxiom(pn string, it *types.Interface, tagName string, t types.Type) {
+	if _, isIface := t.Underlying().(*types.Interface); isIface {
+		return
+	}
+	f := app(sym(pn), SBool, Term{sym(tagName), SInt})
+	if !types.Implements(t, it) {
+		f = Not(f)
+	}
+	x.Reg.Axiom("impl:"+pn+":"+tagName, f.S)
+}
+
+func (x *Exec) noteImplPred(pn string, it *types.Interface) {
+	if _, ok := implPreds[pn]; ok {
+		return
+	}
+	implPreds[pn] = it
+	for tn, t := range tagTypes {
+		x.implAxiom(pn, it, tn, t)
+	}
 }
 
 func (x *Exec) declIfaceFns() {
@@ -1517,6 +1563,10 @@ func (x *Exec) makeInterface(st *State, v Val, from, to types.Type) Val {
 	id := app("mkif", SInt, tag, payload)
 	if typeName(from) == "util/temperror.tempError" {
 		st.assume(x.errPred("isTemporary", id))
+	}
+	if tn := typeName(from); tn == "types.DuplicateRecordError" || tn == "*types.DuplicateRecordError" {
+		// errors.As(err, &DuplicateRecordError{}) / (&*DuplicateRecordError) find it
+		st.assume(x.errPred("isDuplicate", id))
 	}
 	pv := v
 	return Val{K: VIface, T: id, GoT: to, Dyn: from, Payload: &pv}
@@ -1582,6 +1632,7 @@ func (x *Exec) typeAssert(st *State, fr *Frame, v *ssa.TypeAssert) []*State {
 		if targetIsIface {
 			pn := "impl!" + typeName(target)
 			x.Reg.DeclareFun(pn, []string{SInt}, SBool)
+			x.noteImplPred(pn, target.Underlying().(*types.Interface))
 			okT = And(Neq(xv.T, IntT(0)), app(sym(pn), SBool, app("dyntag", SInt, xv.T)))
 			res = Val{K: VIface, T: xv.T, GoT: target}
 		} else {
@@ -1688,6 +1739,9 @@ func (x *Exec) loadGlobal(st *State, a *Addr) Val {
 		case "G!nodeenrollment.ErrNotFound":
 			x.Reg.Axiom("errnf", x.errPred("isNotFound", ts[0]).S)
 			x.Reg.Axiom("errnf2", Not(x.errPred("isTemporary", ts[0])).S)
+			for _, p := range []string{"isCtxErr", "isDuplicate", "isClosed"} {
+				x.Reg.Axiom("errnf:"+p, Not(x.errPred(p, ts[0])).S)
+			}
 		case "G!net.ErrClosed":
 			x.Reg.Axiom("errclosed", x.errPred("isClosed", ts[0]).S)
 			x.Reg.Axiom("errclosed2", Not(x.errPred("isTemporary", ts[0])).S)
@@ -1739,9 +1793,27 @@ func (x *Ctx) idxTerm(off, i Term) Term {
 // the ghost storage is concerned: stored snapshots are entry objects, and the
 // reference-valued fields of entry message objects point to entry objects.
 func (x *Exec) assumeEntryHeapClosed(st *State) {
-	wm := st.WM0.S
+	x.assumeHeapClosed(st, st.WM0.S, nil, false)
+}
+
+// assumeHeapClosed: every reference held by ghost storage and by the fields of
+// storage message objects that exist at watermark wm points to an object that
+// exists at wm (objects are only ever allocated above the watermark). With cur
+// the current heap arrays are constrained (used after a contracted call that
+// replaced ghost storage: the records it created were allocated by the callee,
+// below the new watermark), otherwise the entry arrays. kinds == nil: all kinds.
+func (x *Exec) assumeHeapClosed(st *State, wm string, kinds map[string]bool, cur bool) {
+	arr := func(name, sort string) Term {
+		if cur {
+			return x.heapCur(st, name, sort)
+		}
+		return x.heapInit(name, sort)
+	}
 	for _, k := range []string{"nodeinfo", "nodecreds", "roots", "token"} {
-		a := x.heapInit("St!rec!"+k, arrSort(SStr, SInt))
+		if kinds != nil && !kinds[k] {
+			continue
+		}
+		a := arr("St!rec!"+k, arrSort(SStr, SInt))
 		st.addCmd(fmt.Sprintf("(assert (forall ((id String)) (! (and (>= (select %s id) 0) (<= (select %s id) %s)) :pattern ((select %s id)))))", a.S, a.S, wm, a.S))
 	}
 	seen := map[string]bool{}
@@ -1777,11 +1849,18 @@ func (x *Exec) assumeEntryHeapClosed(st *State) {
 			}
 			p := fieldPrefix(t, f.Name())
 			x.registerPrefix(p, ft)
-			a := x.heapInit(p+suffix, arrSort(SInt, SInt))
+			a := arr(p+suffix, arrSort(SInt, SInt))
 			st.addCmd(fmt.Sprintf("(assert (forall ((r Int)) (! (=> (and (<= 0 r) (<= r %s)) (and (>= (select %s r) 0) (<= (select %s r) %s))) :pattern ((select %s r)))))", wm, a.S, a.S, wm, a.S))
 		}
 	}
-	for tn := range kindOfType {
+	var tns []string
+	for tn, k := range kindOfType {
+		if kinds == nil || kinds[k] {
+			tns = append(tns, tn)
+		}
+	}
+	sort.Strings(tns)
+	for _, tn := range tns {
 		if mt := x.lookupNamed(tn); mt != nil {
 			visit(mt, 0)
 		}
